@@ -101,6 +101,11 @@ def _solve_wrapper(self, *args, **kwargs):
                 raise cp.error.SolverError("injected by simulator (F1)")
     else:
         ctx.probes["fallback_solve_taken"] += 1
+        if not ctx.fallback_in_call:
+            # the primary solver failed *by itself* (no injected fault): rare, but it happens on
+            # LPs within ~1e-5 of infeasibility; the call is judged with the fallback band
+            ctx.probes["fallback_solve_natural"] += 1
+        ctx.fallback_in_call = True
     ctx.solves += 1
     val = _ORIG_SOLVE(self, *args, **kwargs)
     ctx.probes["status:" + str(self.status) + ("" if primary else ":fallback")] += 1
